@@ -122,6 +122,7 @@ def choose_pairs(rng, thorough):
         (one_face, "topology", one("cube")),  # n_edge = n_node = 8, one face
         (one("cube"), "ugrid_centres", one("cuboctahedron")),  # face centres from the file
         (one("cuboctahedron"), "topology", one("cuboctahedron")),  # onto itself: identity
+        (one("tetrahedron"), "topology", one("tetrahedron")),  # onto itself, n_face = n_node
         (one("cube"), "topology", one("truncated_octahedron")),
         (one("truncated_octahedron_split"), "topology", one("cube", rot=rng.randint(1, 24))),
         (one("rhombic_dodecahedron"), "topology", one("octahedron")),  # unequal corner lengths: node data only
@@ -136,7 +137,12 @@ def choose_pairs(rng, thorough):
         for nm in ("cuboctahedron", "truncated_octahedron", "rhombicuboctahedron"):
             pairs.append((one(nm), "ugrid_centres", one("cube", rot=rng.randint(0, 24))))
         pairs.append((one("tetrahedron", rot=7), "topology", one("tetrahedron", rot=7)))
-    return pairs
+    seen, out = set(), []
+    for p in pairs:
+        if pair_id(p) not in seen:
+            seen.add(pair_id(p))
+            out.append(p)
+    return out
 
 
 def pair_id(p):
@@ -273,7 +279,12 @@ def run_pair(job):
                             if lt[a] == lt[b] and abs(w[a] - w[b]) > 1e-6 * max(w[a], w[b]):
                                 bad = (a, b, float(w[a]), float(w[b]))
                     if bad:
-                        num.append({"clause": "WeightsMonotone", "call": call + " dest=%d" % i, "sig": sigbase, "detail": {"pair": bad, "exact_ranks": [lt[bad[0]], lt[bad[1]]]}})
+                        sg = dict(sigbase)
+                        if cid + "|as" in plans:
+                            # are the weights monotone along the exact ranks of the PREDICTED (wrong) kind's elements?
+                            lt2 = plans[cid + "|as"]["lt"]
+                            sg["monotone_for_predicted_kind"] = len(lt2) == len(w) and not any((lt2[a] < lt2[b] and w[a] < w[b] * (1 - 1e-9)) or (lt2[a] == lt2[b] and abs(w[a] - w[b]) > 1e-6 * max(w[a], w[b])) for a in supp for b in supp)
+                        num.append({"clause": "WeightsMonotone", "call": call + " dest=%d" % i, "sig": sg, "detail": {"pair": bad, "exact_ranks": [lt[bad[0]], lt[bad[1]]]}})
             elif len(m["lead"]) == 0:
                 if np.max(np.abs(vals - 7.25)) > 1e-9:
                     num.append({"clause": "ConstantReproduced", "call": call, "sig": sigbase, "detail": {"max_error": float(np.max(np.abs(vals - 7.25)))}})
@@ -346,7 +357,7 @@ def run(ctx):
             recs.append({"id": cid, "q": c["q"], "S": c["S"], "ents": es})
             if cid + "|as" in by_case:
                 ca = by_case[cid + "|as"]
-                recs.append({"id": cid + "|as", "q": ca["q"], "S": ca["S"], "ents": [e for e in es if e["m"] == "pick"]})
+                recs.append({"id": cid + "|as", "q": ca["q"], "S": ca["S"], "ents": [e if e["m"] != "ident" else {"j": e["j"], "m": "pick", "res": e["res"]} for e in es if e["m"] in ("pick", "kset", "ident")]})
         tags.update(r["tags"])
     failed = X.judge(ctx, recs, workers=8)
     ent_index = {(rr["id"], e["j"]): e for rr in recs for e in rr["ents"]}
@@ -369,9 +380,9 @@ def run(ctx):
             call = tags["%s#%d" % (cid, jn)]
             coord = "cartesian" if " cartesian " in call else "spherical"
             sig = {"kind": kind, "remap_to": rt, "coord": coord, "variant": job["pair"][1], "pattern": job["pattern"][kind], "predicted_kind": job["predicted"][kind], "src_xyz_consistent": bool(job["a"]["xyz_ok"][kind]) if coord == "cartesian" else True}
-            if cid + "|as" in by_case and ent["m"] == "pick":
-                # does the exact oracle accept the answer as the nearest element of the PREDICTED (wrong) kind?
-                sig["answer_is_nearest_of_predicted_kind"] = (jn, "NearestSource") not in failed.get(cid + "|as", set()) and (jn, "PickShape") not in failed.get(cid + "|as", set())
+            if cid + "|as" in by_case and ent["m"] in ("pick", "kset", "ident"):
+                # does the exact oracle accept the answer as the nearest element(s) of the PREDICTED (wrong) kind?
+                sig["answer_is_nearest_of_predicted_kind"] = not any(x[0] == jn for x in failed.get(cid + "|as", set()))
             ctx.violation("%s::%s" % (cid, call), clause, detail={"answer": ent, "exact_ranks": plans[cid]["lt"]}, replay={"pair": pid, "data_kind": kind, "remap_to": rt, "dest_index": int(i), "q": by_case[cid]["q"], "S": by_case[cid]["S"], "call": call, "answer": ent}, sig=sig)
     for r in res:
         for nf in r["num"]:
